@@ -95,6 +95,18 @@ class GB58:
             return _M(lambda e, *a: GB58(self.row, self.payload, self.ep, False))
         raise Unsupported(f'str.{name} on a ghost base58 string')
 
+    def __pyvc_len__(self, eng):
+        """C09: every string of a kind has the kind's encoded length (table column 1)"""
+        if self.ep is None:
+            return self.row[1]
+        n = len(self.ep) if isinstance(self.ep, str) else eng.as_sbytes(self.ep.b).n
+        if not isinstance(n, int):
+            raise Unsupported('length of a ghost string with a symbolic-length entrypoint')
+        return self.row[1] + 1 + n
+
+    def __pyvc_truth__(self, eng):
+        return True
+
     def _partition(self, eng, sep, *a):
         if sep != '%':
             raise Unsupported('partition on ' + repr(sep))
